@@ -101,6 +101,14 @@ func ReloadPairs() []ReloadPair {
 			New: reloadHeader + route("/a", "pull {\n    path /pull/y\n    auth token raw:tok-a\n  }") + route("/b", "pull {\n    path /pull/x\n    auth token raw:tok-b\n  }"),
 			Probes: []ReloadProbe{{Name: "x_tok_a", Kind: "pull", Path: "/pull/x/dequeue", Token: "tok-a"}, {Name: "x_tok_b", Kind: "pull", Path: "/pull/x/dequeue", Token: "tok-b"},
 				{Name: "y_tok_a", Kind: "pull", Path: "/pull/y/dequeue", Token: "tok-a"}}},
+		{Name: "global_rate_limit_removed",
+			Old:    strings.Replace(reloadHeader, "listen 127.0.0.1:0\n", "listen 127.0.0.1:0\n  rate_limit {\n    rps 1\n    burst 1\n  }\n", 1) + route("/a", "pull { path /pull/a }"),
+			New:    reloadHeader + route("/a", "pull { path /pull/a }"),
+			Probes: []ReloadProbe{{Name: "two_posts", Kind: "ingress2", Method: "POST", Path: "/a", Body: "{}"}}},
+		{Name: "route_rate_limit_removed",
+			Old:    reloadHeader + route("/a", "rate_limit {\n    rps 1\n    burst 1\n  }", "pull { path /pull/a }"),
+			New:    reloadHeader + route("/a", "pull { path /pull/a }"),
+			Probes: []ReloadProbe{{Name: "two_posts", Kind: "ingress2", Method: "POST", Path: "/a", Body: "{}"}}},
 		{Name: "pull_token_override_removed",
 			Old:    reloadHeader + route("/a", "pull {\n    path /pull/x\n    auth token raw:tok-a\n  }"),
 			New:    reloadHeader + route("/a", "pull { path /pull/x }"),
@@ -159,6 +167,13 @@ var probeSerial int
 func (r *reloadInst) answer(p ReloadProbe) string {
 	probeSerial++
 	switch p.Kind {
+	case "ingress2":
+		// two requests in immediate succession: tells an exhausted rate limiter from none
+		q := p
+		q.Kind = "ingress"
+		first := r.answer(q)
+		second := r.answer(q)
+		return first + " ; " + second
 	case "ingress":
 		before := map[string]bool{}
 		for _, row := range r.mem.VerifDump() {
@@ -344,6 +359,9 @@ func FailedReload(scratch string, pair ReloadPair, class string) (map[string]any
 	ans := func() string {
 		var parts []string
 		for _, p := range pair.Probes {
+			if p.Kind == "ingress2" {
+				time.Sleep(1100 * time.Millisecond) // let the token bucket of the previous round refill
+			}
 			r.seed(probeSerial + 1000)
 			parts = append(parts, p.Name+":"+r.answer(p))
 		}
@@ -374,6 +392,14 @@ func FailedReload(scratch string, pair ReloadPair, class string) (map[string]any
 		bad = pair.New + "\n" + route("/dup", "pull { path /pull/keep }") // duplicate pull path
 	case "missing_secret":
 		bad = pair.New + "\n" + route("/sec", "auth hmac env:VERIF_UNSET_SECRET_"+strconv.Itoa(os.Getpid()), "pull { path /pull/sec }")
+	case "missing_secret_basic":
+		bad = pair.New + "\n" + route("/sec", "auth basic \"u\" \"env:VERIF_UNSET_SECRET_"+strconv.Itoa(os.Getpid())+"\"", "pull { path /pull/sec }")
+	case "missing_secret_pull_token":
+		bad = pair.New + "\n" + route("/sec", "pull {\n    path /pull/sec\n    auth token env:VERIF_UNSET_SECRET_"+strconv.Itoa(os.Getpid())+"\n  }")
+	case "missing_secret_admin_token":
+		bad = strings.Replace(pair.New, "listen 127.0.0.3:0\n", "listen 127.0.0.3:0\n  auth token env:VERIF_UNSET_SECRET_"+strconv.Itoa(os.Getpid())+"\n", 1)
+	case "missing_secret_ref":
+		bad = pair.New + "\nsecrets {\n  secret \"S9\" {\n    value env:VERIF_UNSET_SECRET_" + strconv.Itoa(os.Getpid()) + "\n    valid_from \"2020-01-01T00:00:00Z\"\n  }\n}\n" + route("/sec", "auth hmac secret_ref \"S9\"", "pull { path /pull/sec }")
 	case "restart_required":
 		bad = strings.Replace(pair.New, "listen 127.0.0.1:0", "listen 127.0.0.5:0", 1)
 	default:
